@@ -83,6 +83,8 @@ func (e *eventRingBuffer) GetRecentEvents(count uint64) []*si.EventRecord {
 	} else {
 		startID = lastID - count + 1
 	}
+	// more events requested than available: start from the oldest event still in the buffer
+	startID = max(startID, e.getLowestID())
 
 	history, _, _ := e.getEventsFromID(startID, count)
 	return history
